@@ -991,8 +991,10 @@ def check_cgne(A4, tol, max_iter, must_converge, prec_rank=0, seed=0):
         for a, b in zip(hist, hist[1:]):
             if not (b <= a * (1 + 1e-9) + 1e-13):
                 return {"what": "residual history increases", "pair": [a, b]}
-        if must_converge and not info["converged"]:
-            return {"what": "well-conditioned input not solved within the budget", "last": hist[-1] if hist else None, "budget": max_iter}
+        # the property asks for the pseudoinverse to the tolerance, not for the flag: a start X0 = A^H / ||A||_F^2 that is already exact
+        # (every m x 1 input, when the first residual rounds to exactly 0) leaves the loop at once with an empty history and converged = False
+        if must_converge and not (true <= 2 * tol + 1e-12):
+            return {"what": "well-conditioned input not solved to the tolerance within the budget", "true_residual": true, "last": hist[-1] if hist else None, "budget": max_iter, "converged": info["converged"]}
     return None
 
 
